@@ -314,3 +314,14 @@ func jobRecvReader(id string, maxTotal int, faults bool) *Job {
 func bitOf(c *Ctx, bm []*Term, i int) *Term {
 	return c.Not(c.Eq(c.BAnd(bm[i/8], c.BV(1<<uint(i%8), 8)), c.BV(0, 8)))
 }
+
+
+// stubReadAtDirect replaces the sender's read pool (a global pool of GOMAXPROCS worker goroutines)
+// by the read it performs: ctx check, then file.ReadAt(buf, offset).
+func stubReadAtDirect(it *Interp, fn *ssa.Function, a []Value) Value {
+	c := it.ctxOf(a[0])
+	if it.ctxState(c) {
+		return TupleV{it.ctx.BV(0, 64), it.loadGlobal("context", "Canceled")}
+	}
+	return osModel("(*os.File).ReadAt")(it, nil, []Value{a[1], a[3], a[2]})
+}
